@@ -321,6 +321,8 @@ def run(P, R, tier):
     flds = fields.init_fields_of(P, "GMMStats", ("n_gaussians", "n_features"))
     fields.check_init_fields(P, R, "GMMStats", "init_fields", flds)
     fields.check_compare(P, R, "GMMStats", "__eq__", flds, rule="FIELDS.eq")
+    from ..engines import traps as _traps
+    _traps.check(P, R, ['gmm'], scope='gmm:(GMMMachine|GMMStats)\\.(save|load|from_hdf5|_\\w+)|gmm:_\\w*hdf5\\w*')
 
 
 EXPLANATION += ' Also: (SCHEMA.S9) the per-component groups of the legacy format are addressed by index (the weights are index-ordered), never visited in name order.'
